@@ -13,6 +13,7 @@ from bv.engine.pool import run_shards, chunks, HarnessError
 from bv.refs import ssmwire, segmon
 from bv.stacks import app as A
 from bv.stacks import apporacle as O
+from bacpypes.pdu import Address
 from bv.stacks.appsys import Cfg, run_execution, frame_label
 
 PROPERTY = "C12"
@@ -362,6 +363,208 @@ def e1_subtree(item, deadline):
     return acc
 
 
+
+# ----------------------------------------------------------------------------- part W: a scripted client changes the window
+
+def window_case(schedule, nsegs=9):
+    """A raw scripted client (crafted frames, no stack) asks the real server stack for a response of `nsegs` segments and
+    acknowledges every burst with the next window size of `schedule` (cycled).  After an ack that allows w segments the
+    server must not send more than w before the next ack.  Returns (problems, facts)."""
+    from bacpypes.pdu import PDU
+    from bacpypes.vlan import Network
+    from bv.engine.ctlnet import Wire, CtlNetwork
+    from bv.stacks.appsys import _device, side
+    from bv.props.c05 import rs
+    vclock.reset(0.0)
+    wire = Wire()
+    net = CtlNetwork(wire, "lan")
+    sd = side(window=8, retries=1)
+    server = A.PlainApp(_device("server", 2, sd), 2, net, window=8)
+    server.resp_len = rs(nsegs)
+    vclock.settle()
+    problems = []
+
+    def send(apdu, expecting_reply):
+        pdu = PDU(bytes([0x01, 0x04 if expecting_reply else 0x00]) + apdu, source=Address(1), destination=Address(2))
+        try:
+            Network.process_pdu(net, pdu)
+        except Exception as err:
+            problems.append(("scripted-client:delivery-raised:%s" % type(err).__name__, {"error": str(err)[:120]}))
+        vclock.settle()
+
+    def take():
+        """frames the server put on the wire since the last call (the scripted client receives them all)"""
+        out = []
+        while wire.inflight:
+            fr = wire.drop(0)
+            try:
+                n, a = ssmwire.parse_frame(fr.data)
+            except ssmwire.WireError:
+                continue
+            if a is not None:
+                out.append(a)
+        return out
+
+    req = bytes([0x02, 0x00, 0x07, 18]) + segmon.private_transfer_data(1, b"")     # SA, max-resp 50, invoke 7
+    send(req, True)
+    got = take()
+    segs = [a for a in got if a["type"] == 3 and a["seg"]]
+    if len(segs) != 1 or segs[0]["seq"] != 0:
+        return [("scripted-client:first-burst-is-not-segment-0", {"got": [(a["name"], a["seq"]) for a in got]})], {}
+    last = 0
+    k = 0
+    bursts = []
+    done = not segs[0]["mor"]
+    guard = 0
+    while not done and guard < 200:
+        guard += 1
+        w = schedule[k % len(schedule)]
+        k += 1
+        send(bytes([0x40, 0x07, last % 256, w]), False)
+        got = take()
+        if not got:
+            # the server may treat an ack as a duplicate (window cut below what is outstanding): its timer retransmits
+            nd = vclock.next_due()
+            if nd is None:
+                break
+            vclock.advance_to(nd)
+            got = take()
+        data = [a for a in got if a["type"] == 3 and a["seg"]]
+        if any(a["type"] == 7 for a in got):
+            bursts.append(("abort", w))
+            break
+        bursts.append((len(data), w))
+        if len(data) > w:
+            problems.append(("more-segments-after-an-ack-than-its-window-allows",
+                             {"ack_window": w, "segments_sent": len(data), "sequence": [a["seq"] for a in data], "schedule": list(schedule)}))
+        for a in data:
+            if a["win"] > 127 or a["win"] < 1:
+                problems.append(("window-octet-outside-1..127", {"win": a["win"]}))
+            if a["seq"] == (last + 1) % 256:
+                last += 1
+            if not a["mor"] and a["seq"] == last % 256:
+                done = True
+    if done:
+        send(bytes([0x40, 0x07, last % 256, schedule[k % len(schedule)]]), False)
+    return problems, {"schedule": list(schedule), "bursts": bursts, "completed": done}
+
+
+def window_cases(tier):
+    import itertools as it
+    ws = (1, 2, 4) if tier == "quick" else (1, 2, 3, 4, 8)
+    for n in (2, 3):
+        for sched in it.product(ws, repeat=n):
+            yield tuple(sched)
+
+
+def shard_window(item, deadline):
+    acc = Acc()
+    for sched in item:
+        problems, facts = window_case(sched)
+        acc.case(("W", sched))
+        acc.traces += 1
+        acc.transitions += len(facts.get("bursts", ())) + 1
+        acc.outcome("W:%s" % ("completed" if facts.get("completed") else "stalled-or-aborted"))
+        acc.state(("W", tuple(facts.get("bursts", ()))))
+        for prob, detail in problems:
+            acc.fail("cap:scripted-client:%s" % prob, {"problem": prob, "detail": detail, "facts": facts}, {"window_schedule": list(sched)})
+    return acc
+
+
+# ----------------------------------------------------------------------------- part I: who lives at that address now
+
+def identity_case(history, req_len=100):
+    """The client hears a sequence of I-Am announcements (device, station, capability set), then sends one request to
+    station 10.  What it sends must respect the *last announcement heard from station 10* (that is what the peer at that
+    address announced).  Returns (problems, facts)."""
+    from bacpypes.pdu import PDU, LocalBroadcast
+    from bacpypes.vlan import Network
+    from bv.engine.ctlnet import Wire, CtlNetwork
+    from bv.stacks.appsys import _device, side
+    vclock.reset(0.0)
+    wire = Wire()
+    net = CtlNetwork(wire, "lan")
+    client = A.PlainApp(_device("client", 1, side(maxapdu=1476, retries=0)), 1, net)
+    vclock.settle()
+    CAPS = {"big": (1476, 0), "small": (50, 3)}          # (max APDU, segmentation enumeration: 0 both, 3 none)
+    at = {}             # station -> (device, capabilities) as far as the announcements heard so far say
+    problems = []
+    for (dev, station, caps) in history:
+        maxapdu, seg = CAPS[caps]
+        # I-Am, hand encoded: device object identifier, unsigned max-APDU, enumerated segmentation, unsigned vendor
+        oid = (8 << 22) | dev
+        body = bytes([0x10, 0x00, 0xC4]) + oid.to_bytes(4, "big") + bytes([0x22, maxapdu >> 8, maxapdu & 0xFF, 0x91, seg, 0x22, 0x03, 0xE7])
+        pdu = PDU(bytes([0x01, 0x00]) + body, source=Address(station), destination=LocalBroadcast())
+        try:
+            Network.process_pdu(net, pdu)
+        except Exception as err:
+            problems.append(("identity:i-am-raised:%s" % type(err).__name__, {"error": str(err)[:120]}))
+        vclock.settle()
+        # the device now lives at `station`: whatever was known about that station before is superseded, and the
+        # device no longer lives where it announced itself earlier
+        for st in [st for st, (d, c) in at.items() if d == dev]:
+            del at[st]
+        at[station] = (dev, (maxapdu, seg))
+    told = at[10][1] if 10 in at else None
+    del wire.inflight[:]
+    n0 = len(wire.log)
+    try:
+        client.submit(Address(10), req_len)
+    except Exception as err:
+        problems.append(("submitting-the-request-raised:%s" % type(err).__name__, {"error": str(err)[:120]}))
+    vclock.settle()
+    sent = []
+    for (t, netname, src, dst, data) in wire.log[n0:]:
+        try:
+            n, a = ssmwire.parse_frame(data)
+        except ssmwire.WireError:
+            continue
+        if a is not None and a["type"] == 0 and dst == "10":
+            sent.append(a)
+    outcome = [(c[1], c[4]) for c in client.confirmations]
+    if told is not None:
+        maxapdu, seg = told
+        for a in sent:
+            if a["length"] > maxapdu:
+                problems.append(("request-apdu-longer-than-the-device-now-at-that-address-announced",
+                                 {"length": a["length"], "announced": maxapdu}))
+            if a["seg"] and seg == 3:
+                problems.append(("segmented-request-to-the-device-now-at-that-address-which-cannot-receive-segments", {}))
+        needs = len(segmon.private_transfer_data(1, b"\0" * req_len)) + 4 > maxapdu
+        if needs and seg == 3 and not any(o[0] == "abort" for o in outcome):
+            problems.append(("does-not-fit-the-device-now-at-that-address-but-no-abort", {"outcome": outcome}))
+    return problems, {"history": [list(h) for h in history], "told_by_station_10": told, "sent": [(a["length"], a["seg"]) for a in sent], "outcome": outcome}
+
+
+def identity_cases(tier):
+    import itertools as it
+    events = [(dev, st, caps) for dev in (100, 200) for st in (10, 20) for caps in ("big", "small")]
+    for n in ((1, 2, 3) if tier == "quick" else (1, 2, 3, 4)):
+        for h in it.product(events, repeat=n):
+            # a device keeps its capability set within one history (it is the same device), two devices differ
+            caps = {}
+            ok = True
+            for dev, st, c in h:
+                if caps.setdefault(dev, c) != c:
+                    ok = False
+            if ok and len(set(caps.values())) == len(caps):
+                yield h
+
+
+def shard_identity(item, deadline):
+    acc = Acc()
+    for h in item:
+        problems, facts = identity_case(h)
+        acc.case(("I", h))
+        acc.traces += 1
+        acc.transitions += len(h) + 1
+        acc.outcome("I:%s:%s" % (facts.get("told_by_station_10"), facts.get("outcome") and facts["outcome"][0][0]))
+        acc.state(("I", repr(facts.get("told_by_station_10")), repr(facts.get("sent")), repr(facts.get("outcome"))))
+        for prob, detail in problems:
+            acc.fail("cap:identity:%s" % prob, {"problem": prob, "detail": detail, "facts": facts}, {"identity_history": [list(x) for x in h]})
+    return acc
+
+
 def run(tier, seed, deadline):
     vclock.install()
     acc = Acc()
@@ -377,6 +580,12 @@ def run(tier, seed, deadline):
     kids = plan.info.pop("kids", [])
     acc.info["E1 re-announce first-level deviations"] = len(kids)
     run_shards(e1_subtree, kids, deadline, into=acc)
+    wc = list(window_cases(tier))
+    run_shards(shard_window, chunks(wc, 16), deadline, into=acc)
+    acc.info["scripted-client window schedules"] = len(wc)
+    ic = list(identity_cases(tier))
+    run_shards(shard_identity, chunks(ic, 32), deadline, into=acc)
+    acc.info["identity histories"] = len(ic)
     s = run_execution(Cfg.from_json(cs[7]), ())[0]
     acc.sample({"cfg": s.cfg.describe(), "wire": [(frame_label(f[4]), len(f[4]) - 2) for f in s.wire.log],
                 "outcome": [(c[1], c[4] if not isinstance(c[4], bytes) else len(c[4])) for c in s.client.confirmations]})
@@ -385,6 +594,12 @@ def run(tier, seed, deadline):
 
 def replay(case):
     vclock.install()
+    if "window_schedule" in case:
+        problems, facts = window_case(tuple(case["window_schedule"]))
+        return not problems, "scripted client, window schedule %r -> %r\n%r" % (case["window_schedule"], problems[:3], facts)
+    if "identity_history" in case:
+        problems, facts = identity_case(tuple(tuple(x) for x in case["identity_history"]))
+        return not problems, "I-Am history %r -> %r\n%r" % (case["identity_history"], problems[:3], facts)
     cfg = Cfg.from_json(case["cfg"])
     sysm, points = run_execution(cfg, tuple(case.get("choices", ())), max_steps=3000)
     got, problems = judge(sysm)
